@@ -208,6 +208,16 @@ Theorem negotiated_revision_is_spoken : forall bi o addr h chunks tl,
 Proof. exact negotiated_revision_spoken_lemma. Qed.
 Print Assumptions negotiated_revision_is_spoken.
 
+(* a traced caller context (a valid OpenTelemetry span in the context given to Do): below the revision that
+   introduced the field nothing of the span is written - the bytes of the query are those of the same query
+   without a span; from that revision on the span is part of the client info the server decodes (C17's
+   Query_roundtrip over mk_query) *)
+Theorem span_absent_before_opentelemetry : forall c q sp,
+  gate (vN (c_ver c)) FeatureOpenTelemetry = false ->
+  query_bytes c (set_span q sp) = query_bytes c q.
+Proof. exact query_bytes_span_blind. Qed.
+Print Assumptions span_absent_before_opentelemetry.
+
 (* Feature.In on a Go int (possibly negative, as a hostile hello can make it) is the gate the
    message codecs apply at that revision *)
 Theorem feature_in_is_gate : forall f v, 0 < f -> feature_in f v = gate (vN v) f.
@@ -243,7 +253,7 @@ Definition ex_peer (rev : Z) : peer :=
 Definition ex_exc : list fv := [FZ 516; FStr [68; 66]; FStr [98; 97; 100]; FStr []; FB false].
 Definition ex_q : cquery :=
   {| cq_id := [113] ; cq_body := [83] ; cq_quota := [] ; cq_inituser := [] ; cq_settings := [] ;
-     cq_params := [([112], [49])] |}.
+     cq_params := [([112], [49])] ; cq_span := None |}.
 Definition ver_of (r : hs_result) : Z := match r_out r with Connected c => c_ver c | Failed _ => 0%Z end.
 Definition do_end_of (r : hs_result) : do_end :=
   match r_out r with Connected c => d_end (do_query c ex_q [Z.to_N ServerCodeEndOfStream]) | Failed _ => DoFail end.
